@@ -631,7 +631,8 @@ func c17QInject(b *c17QBuilt, f c17QFault) (w c17QWant, ok bool) {
 		if a.stack == "" && !a.wantsExpr {
 			return w, false
 		}
-		src := b.src[:pos(f.At)+len(a.text)]
+		// the end may be reached directly or by skipping white space / a comment behind the last token
+		src := b.src[:pos(f.At)+len(a.text)] + []string{"", " ", "\n", "\t \n", " # c", " # comment\n", "\n\n", "#x", " #\n #\n", "\r\n"}[f.Var%10]
 		return c17QWant{src: src, s: len(src), e: len(src), eof: true}, true
 	case "unterminated":
 		if f.At < 0 || f.At >= n || b.atoms[f.At].glue {
@@ -714,6 +715,13 @@ var kC17Q = run.NewKind("c17.query", func(c *run.Ctx, t c17QCase) *run.Fail {
 	c.Count("query_fault_"+t.Fault.Kind, 1)
 	key, _ := json.Marshal(t)
 	if t.Via == "lib" {
+		c.Nontrivial(string(key))
+		return nil
+	}
+	if w.eof && t.Fault.Var%10 != 0 {
+		// the end of the input lies behind white space or a comment: there is no offending character and the statement
+		// does not say which of the neighbouring positions the command should show; the library's answer was checked
+		c.Count("query_eof_behind_trivia_library_only", 1)
 		c.Nontrivial(string(key))
 		return nil
 	}
